@@ -25,6 +25,11 @@ func decodeAmmo(cfg *config.AmmoConfig, storage *vs.SourceStorage) ([]*gun.Scena
 		scenarioRegistry[sc.Name] = sc
 	}
 
+	for _, sc := range cfg.Scenarios {
+		if sc.Weight < 0 {
+			return nil, fmt.Errorf("scenario %s has negative weight %d", sc.Name, sc.Weight)
+		}
+	}
 	names, size := config.SpreadNames(cfg.Scenarios)
 	result := make([]*gun.Scenario, 0, size)
 	for _, sc := range cfg.Scenarios {
